@@ -417,6 +417,43 @@ def check_conn(eng, run):
         run.finding("C15.conn", h, _stmt_at(h, v.lineno), "a new handle() generator is created without re-testing client.is_closing()")
     run.ob("C15.conn", f"{h.short}:is_closing-before-each-generator", ok)
 
+    # the connection hook finishing early (before its first yield, or after consuming some requests) does not end the
+    # connection: every normal return of the generator lies after the request phase was set up (disconnection hook
+    # registered) - except the `initializer yielded None` exit
+    class EarlyReturn(RuleAnalysis):
+        tokens = ("StopAsyncIteration", "Exception")
+
+        def __init__(self, e):
+            super().__init__(e)
+            self.viol = []
+
+        def initial(self, f):
+            return [frozenset()]
+
+        def may_raise(self, node, fact):
+            if isinstance(node, ast.Await):
+                return list(self.tokens)
+            return []
+
+        def transfer(self, node, fact):
+            c = call_of(node)
+            if isinstance(node, ast.Call) and _cname(c) == "push_async_callback":
+                return [fact | {"reg"}]
+            if isinstance(node, ast.Return) and "reg" not in fact and "none-client" not in fact:
+                self.viol.append(node)
+            return [fact]
+
+        def branch(self, test, fact):
+            if isinstance(test, ast.Compare) and isinstance(test.ops[0], ast.Is) and isinstance(test.comparators[0], ast.Constant) and test.comparators[0].value is None and dotted(test.left) == "client":
+                return [fact | {"none-client"}], [fact]
+            return [fact], [fact]
+
+    an = EarlyReturn(eng)
+    Interp(an, h).run()
+    for v in an.viol[:1]:
+        run.finding("C15.conn", h, v, "the handler generator returns before the request phase was set up (on_connection finished early): the connection is closed right after on_connection(), no request reaches handle() and on_disconnection() is skipped")
+    run.ob("C15.conn", f"{h.short}:no-return-before-request-phase", not an.viol)
+
 
 def run(eng, run):
     run.not_decided += NOT_DECIDED
@@ -472,6 +509,10 @@ MUTANTS = [
             why="every second request is dropped"),
     Variant("dgram-handler-no-aclose", _HD, _drop_finally_aclose(0), "C15.close"),
 ]
+
+MUTANTS.append(Variant("on-connection-early-stop-returns", _H,
+                       lambda fn: setattr(next(h for t in ast.walk(fn) if isinstance(t, ast.Try) for h in t.handlers if ast.unparse(h.type) == "StopAsyncIteration" and isinstance(h.body[0], ast.Pass)), "body", [ast.parse("return").body[0]]),
+                       "C15.conn", why="an on_connection generator that ends before its first yield closes the connection"))
 
 BENIGN = [
     Variant("client-coroutine-rename-action", _CC, lambda fn: rename_local(fn, "action", "act"), why="local renamed (role variables are passed by name: see instances)"),
